@@ -305,6 +305,16 @@ int upipe_h26xf_convert_frame(struct uref *uref,
                     encaps_output, ubuf_mgr, annexb_header,
                     &nal_offset_correction))
 
+        /* The offset stored for this NAL is the start of the next one:
+         * uref_h26x_iterate_nal only shifted it by the size changes of the
+         * previous NALs, it also moves by the change of this one. */
+        uint64_t next_offset;
+        if (ubase_check(uref_h26x_get_nal_offset(uref, &next_offset,
+                                                 nal_units - 1)) &&
+            next_offset != nal_offset + nal_size)
+            UBASE_RETURN(uref_h26x_set_nal_offset(uref, nal_offset + nal_size,
+                                                  nal_units - 1))
+
         if (vcl_offset && vcl_offset <= nal_offset + nal_size) {
             uref_block_set_header_size(uref,
                                        vcl_offset + nal_offset_correction);
